@@ -896,6 +896,12 @@ fn adapter_fact_checks(l: &[char]) -> Vec<(&'static str, bool)> {
     if !n.contains(&'\u{FFFD}') {
         out.push(("ok_nv_idem", nv(&n) == n));
     }
+    // ok_nv_mapfix (NvMapFix of Proofs/Idna_C12c_Stmt4.v): a text that normalize_validate accepts - returns unchanged and
+    // without U+FFFD - is a fixed point of map_normalize (every character valid, the text NFC).  The premise that the
+    // clauses of C12 about the Unicode form need: ToASCII maps the Unicode form that ToUnicode displayed.
+    if !n.contains(&'\u{FFFD}') && n[..] == *l {
+        out.push(("ok_nv_mapfix", m[..] == *l));
+    }
     // ok_map_prefix (MapPrefix of Proofs/Idna_C10c_Drun.v): for an ASCII text a and a text that starts with an ASCII
     // character, map_normalize(a ++ rest) = lower-cased a ++ map_normalize(rest).  uts46.rs hands map_normalize only
     // the part of a label that starts at the last ASCII character before the first non-ASCII one; the ASCII prefix is
@@ -1001,7 +1007,7 @@ fn adapter_facts(rep: &mut Report, rng: &mut Rng, thorough: bool, sources: &[Str
         }
     }
     rep.notes.push(format!(
-        "adapter premises sampled on the real idna_adapter: {} texts, {} fact instances (nvnotrunc, adapternp, adapterusv, ok_ascii, ok_case, ok_stable, ok_mn_idem, ok_fffd, ok_nv_idem, ok_map_prefix, and on the 128 ASCII characters ok_ascii_nomark, ok_pass_bidi; H0 = the empty text is among them)",
+        "adapter premises sampled on the real idna_adapter: {} texts, {} fact instances (nvnotrunc, adapternp, adapterusv, ok_ascii, ok_case, ok_stable, ok_mn_idem, ok_fffd, ok_nv_idem, ok_nv_mapfix, ok_map_prefix, and on the 128 ASCII characters ok_ascii_nomark, ok_pass_bidi; H0 = the empty text is among them)",
         texts.len(),
         n
     ));
